@@ -17,8 +17,8 @@ sums (`C05_forward_eq_mass`), the shape clauses (`C05_shape`), frames beyond an 
 length do not change its result (`C05_batch_partial`: elements with at least one frame), filler sits behind with mass `-inf`
 (`C05_filler`).  The pinned array code violates "never NaN" and "slots without a prefix are
 inert": `C05_nan_counterexample`, `C05_poison_counterexample` (both replayed on the
-implementation, `corpus/C05/`).  That the array code computes the map recursion
-(`C05_refines`) is NOT proved; it is checked by the correspondence on every run.
+implementation, `corpus/C05/`).  The repaired array code never produces NaN or `+inf` (`C05_no_nan`).  That the array code
+computes the map recursion (`C05_refines`) is NOT proved; it is checked by the correspondence on every run.
 -/
 
 namespace PdtVerif.Ctc
@@ -198,6 +198,81 @@ theorem C05_poison_repaired :
     (List.range 6).map (fun n => Ctc.mass 1 (List.replicate 5 halfFrame) (List.replicate n 0))
       = [1/32, 15/32, 15/32, 1/32, 0, 0] := by
   decide +kernel
+
+/-- **C05_no_nan** (repaired code, `fix = true`): for every vocabulary size, width, element
+length, number of frames and every `topk` answer whatsoever — as long as the probabilities
+handed to the step function are finite numbers (zeros allowed) — every reported probability
+is a rational number or `-inf`: never NaN, never `+inf`.
+(The pinned code violates this: `C05_nan_counterexample`.) -/
+theorem C05_no_nan (V width len : Nat) (frames : List FrameIn) (hf : ∀ f ∈ frames, FrameFin f) :
+    ∀ x ∈ (search true V width len frames).1.probs, (∃ q, x = XR.fin q) ∨ x = XR.negInf := by
+  intro x hx
+  have := search_clean V width len frames hf x hx
+  cases x with
+  | fin q => exact Or.inl ⟨q, rfl⟩
+  | negInf => exact Or.inr rfl
+  | posInf => simp [XR.clean] at this
+  | nan => simp [XR.clean] at this
+
+/-- one call of the repaired step function: non-blank and blank masses stay rational or `-inf` -/
+theorem C05_no_nan_step (V width : Nat) (ext : List (List XR)) (nonext : List XR)
+    (blank : XR) (st : State) (sel : Option (List Nat))
+    (hnb : ∀ x ∈ st.nb, x.clean = true) (hb : ∀ x ∈ st.b, x.clean = true)
+    (hext : ∀ r ∈ ext, ∀ x ∈ r, x.isFin = true) (hne : ∀ x ∈ nonext, x.isFin = true)
+    (hbl : blank.isFin = true) :
+    let o := (advance true V width ext nonext blank st sel).st
+    (∀ x ∈ o.nb, x.clean = true) ∧ (∀ x ∈ o.b, x.clean = true) :=
+  advance_clean V width ext nonext blank st sel hnb hb hext hne hbl
+
+example : ∀ f ∈ nanFrames, FrameFin f := by
+  intro f hf
+  simp only [nanFrames, List.mem_cons, List.mem_nil_iff, or_false] at hf
+  rcases hf with rfl | rfl <;> refine ⟨?_, ?_, rfl⟩ <;> simp [q4, h2, XR.isFin]
+
+/-- **C05_slot_total** (repaired code): the total mass `nb + b` of output slot `j` is exactly the
+candidate total that `topk` selected for it (so `-inf` candidates give `-inf` slots, and
+nothing else does). -/
+theorem C05_slot_total (V width : Nat) (ext : List (List XR)) (nonext : List XR)
+    (blank : XR) (st : State) (s : List Nat)
+    (hnb : ∀ x ∈ st.nb, x.clean = true) (hb : ∀ x ∈ st.b, x.clean = true)
+    (hbl : blank.isFin = true)
+    (j : Nat) (hj : j < min width (st.nb.length * (V + 1)))
+    (hs : getN s j < st.nb.length * V + st.nb.length) :
+    let o := advance true V width ext nonext blank st (some s)
+    getX o.st.nb j + getX o.st.b j = getX o.cand (getN s j) :=
+  advance_total V width ext nonext blank st s hnb hb hbl j hj hs
+
+/-- **C05_sorted_step** (repaired code): with a legitimate `topk` answer the total masses of the
+`width` output slots are non-increasing in torch's order (`-inf` last): real prefixes are
+ordered by non-increasing probability and the slots without a prefix sit behind them. -/
+theorem C05_sorted_step (V width : Nat) (ext : List (List XR)) (nonext : List XR)
+    (blank : XR) (st : State) (s : List Nat)
+    (hnb : ∀ x ∈ st.nb, x.clean = true) (hb : ∀ x ∈ st.b, x.clean = true)
+    (hbl : blank.isFin = true)
+    (hk : isTopK (advance true V width ext nonext blank st (some s)).cand
+            (min width (st.nb.length * (V + 1))) s = true) :
+    let o := advance true V width ext nonext blank st (some s)
+    nonIncr ((List.range width).map (fun j => getX o.st.nb j + getX o.st.b j)) = true :=
+  advance_sorted V width ext nonext blank st s hnb hb hbl hk
+
+/-- **C05_sorted_array** (repaired code, module level): for an element all of whose frames are
+valid, with finite probabilities and a legitimate last `topk` answer, the reported
+probabilities are non-increasing. -/
+theorem C05_sorted_array (V width : Nat) (fs : List FrameIn) (f : FrameIn) (s : List Nat)
+    (hfs : ∀ g ∈ fs, FrameFin g) (hf : FrameFin f) (hsel : f.sel = some s)
+    (hk : isTopK (advance true V width f.ext f.nonext f.blank
+              (loop true V width (fs.length + 1) 0 initState fs).1 (some s)).cand
+            (min width ((loop true V width (fs.length + 1) 0 initState fs).1.nb.length * (V + 1))) s = true) :
+    nonIncr (search true V width (fs.length + 1) (fs ++ [f])).1.probs = true :=
+  search_sorted V width fs f s hfs hf hsel hk
+
+/-- the hypotheses are satisfiable: the second frame of `nanFrames` after the first -/
+example :
+    isTopK (advance true 2 9 (List.replicate 9 [q4, q4]) [q4, q4] h2
+              (loop true 2 9 2 0 initState (nanFrames.take 1)).1
+              (some [20, 19, 18, 3, 4, 5, 2, 16, 17])).cand
+      (min 9 ((loop true 2 9 2 0 initState (nanFrames.take 1)).1.nb.length * (2 + 1)))
+      [20, 19, 18, 3, 4, 5, 2, 16, 17] = true := by decide +kernel
 
 /- TARGET (not proved in this generality): for EVERY `own` (including the empty list, i.e. an
 element of length 0 inside a longer batch)
